@@ -137,8 +137,8 @@ def run(corrupt=None):
         raise tlc.TLCError("deviation not refuted: %s" % neg.summary())
     options = list(all_options())
     if thorough:
-        datasets = [(1, 1), (2, 1), (3, 1), (2, 2), (3, 2)]
-        seeds = [ck.seed, ck.seed + 1]
+        datasets = [(1, 1), (2, 1), (3, 1), (2, 2), (3, 2), (4, 1)]
+        seeds = [ck.seed, ck.seed + 1, ck.seed + 2]
     else:
         datasets = [(1, 1), (2, 1)]
         seeds = [ck.seed]
